@@ -813,6 +813,17 @@ def sqlite_oracle(ctx, spec, src, res, model_ok):
                 if not any(f['parent'] == pt and f['cols'] == list(a.columns) for f in c['fks']):
                     ctx.violation('relationship attribute has no foreign key in the created table', dict(inp, attr=repr(a)), observed=c['fks'],
                                   expected=[pt, a.columns], key='entity-fk')
+    # converse: every UNIQUE constraint / index of the created tables is one the entity model declares
+    for tname, c in cat.items():
+        declared = set()
+        for entity in db.entities.values():
+            if entity._table_ != tname: continue
+            for ix in entity._indexes_:
+                if ix.is_unique and not ix.is_pk: declared.add(tuple(col for a in ix.attrs for col in a.columns))
+        for i in c['indexes']:
+            if i['unique'] and i['origin'] != 'pk' and tuple(i['cols']) not in declared and any(e._table_ == tname for e in db.entities.values()):
+                ctx.violation('the created table has a UNIQUE constraint the entity model does not declare', dict(inp, table=tname), observed=i['cols'],
+                              expected=sorted(declared), key='entity-undeclared-unique')
     store_objects(ctx, db, inp)
     try:
         db.check_tables()
@@ -823,7 +834,81 @@ def sqlite_oracle(ctx, spec, src, res, model_ok):
 
 IDENT = {'postgres': r'"((?:[^"]|"")*)"', 'oracle': r'"((?:[^"]|"")*)"', 'mysql': r'`((?:[^`]|``)*)`', 'sqlite': r'"((?:[^"]|"")*)"'}
 
-def ddl_oracle(ctx, spec, src, dialect, res, decls):
+def unq(dialect, text):
+    """identifiers of a parenthesised / single quoted-identifier list"""
+    return [x.replace('""', '"').replace('``', '`') for x in re.findall(IDENT[dialect], text)]
+
+def parse_ddl(dialect, script):
+    """structure of the DDL text: tables (columns with PRIMARY KEY / UNIQUE / NOT NULL, composite primary key, named composite
+    unique constraints), CREATE INDEX commands, ADD FOREIGN KEY commands. Independent of dbschema's objects: text only."""
+    I = IDENT[dialect]
+    tables = {}; indexes = []; fks = []; other = []
+    for cmd in script.split(';\n\n'):
+        cmd = cmd.strip()
+        m = re.match(r'CREATE TABLE (%s) \(\n(.*)\n\)$' % I, cmd, re.S)
+        if m:
+            t = {'columns': [], 'pk': None, 'unique': []}
+            for line in m.group(3 if False else len(m.groups())).split('\n'):
+                line = line.strip().rstrip(',')
+                if line.startswith('PRIMARY KEY ('): t['pk'] = unq(dialect, line); continue
+                mc = re.match(r'CONSTRAINT (%s) UNIQUE (\(.*\))$' % I, line)
+                if mc: t['unique'].append((unq(dialect, mc.group(1))[0], unq(dialect, line[mc.end(1):]))); continue
+                mc = re.match(r'(%s) (.*)$' % I, line)
+                if not mc: other.append(line); continue
+                rest = mc.group(len(mc.groups()))
+                t['columns'].append({'name': unq(dialect, mc.group(1))[0], 'pk': 'PRIMARY KEY' in rest, 'unique': bool(re.search(r'\bUNIQUE\b', rest)),
+                                     'notnull': 'NOT NULL' in rest})
+            tables[unq(dialect, m.group(1))[0]] = t; continue
+        m = re.match(r'CREATE (UNIQUE )?INDEX (%s) ON (%s)( USING GIN)? (\(.*\))$' % (I, I), cmd)
+        if m:
+            ids = unq(dialect, cmd); indexes.append((ids[0], ids[1], ids[2:], bool(m.group(1)))); continue
+        m = re.match(r'ALTER TABLE (%s) ADD CONSTRAINT (%s) FOREIGN KEY (\([^)]*\)) REFERENCES (%s) (\([^)]*\))' % (I, I, I), cmd)
+        if m:
+            g = m.groups()
+            parts = re.split(r' FOREIGN KEY | REFERENCES ', cmd)
+            fks.append((unq(dialect, parts[0])[0], unq(dialect, parts[0])[1], unq(dialect, parts[1]), unq(dialect, parts[2])[0],
+                        unq(dialect, parts[2].split(' ON DELETE')[0])[1:])); continue
+        other.append(cmd.split('\n')[0][:60])
+    return tables, indexes, fks, other
+
+def ddl_structure_oracle(ctx, dialect, script, schema, inp):
+    """PostgreSQL / MySQL / Oracle: the DDL text declares exactly the columns (order, NOT NULL), primary keys, unique constraints,
+    indexes and foreign keys of the generated schema (the model's when the correspondence holds)"""
+    tables, indexes, fks, other = parse_ddl(dialect, script)
+    def bad(what, table, observed, expected):
+        ctx.violation('%s DDL text differs from the generated schema: %s' % (dialect, what), dict(inp, table=table), observed=observed, expected=expected,
+                      key='ddl:' + what)
+    for o in other:
+        if not (dialect == 'oracle' and (o.startswith('CREATE SEQUENCE') or o.startswith('CREATE TRIGGER'))): ctx.count('ddl-unparsed:' + o[:24])
+    if sorted(tables) != sorted(t['name'] for t in schema['tables']): bad('tables', None, sorted(tables), sorted(t['name'] for t in schema['tables'])); return
+    exp_idx = []; exp_fk = []
+    for t in schema['tables']:
+        d = tables[t['name']]
+        if [c['name'] for c in d['columns']] != [c['name'] for c in t['columns']]:
+            bad('columns', t['name'], [c['name'] for c in d['columns']], [c['name'] for c in t['columns']]); continue
+        pk = [i for i in t['indexes'] if i['isPk']]
+        pk_cols = pk[0]['cols'] if pk else []
+        got_pk = d['pk'] if d['pk'] is not None else [c['name'] for c in d['columns'] if c['pk']]
+        if got_pk != pk_cols: bad('primary key', t['name'], got_pk, pk_cols)
+        for c, m in zip(d['columns'], t['columns']):
+            single_pk = len(pk_cols) == 1 and m['name'] in pk_cols
+            if single_pk: continue
+            if c['notnull'] != m['notNull']: bad('nullability', t['name'], [c['name'], c['notnull']], [m['name'], m['notNull']])
+            uq = any(i['unique'] and not i['isPk'] and i['cols'] == [m['name']] for i in t['indexes'])
+            if c['unique'] != uq: bad('inline unique', t['name'], [c['name'], c['unique']], [m['name'], uq])
+        exp_u = sorted((i['name'], tuple(i['cols'])) for i in t['indexes'] if i['unique'] and not i['isPk'] and len(i['cols']) > 1)
+        got_u = sorted((n, tuple(c)) for n, c in d['unique'])
+        if exp_u != got_u: bad('composite unique constraints', t['name'], got_u, exp_u)
+        exp_idx += [(i['name'], t['name'], tuple(i['cols'])) for i in t['indexes'] if not i['unique'] and not i['isPk']]
+        exp_fk += [(t['name'], f['name'], tuple(f['cols']), f['parent'], tuple(f['parentCols'])) for f in t['fks']]
+    got_idx = sorted((n, t, tuple(c)) for n, t, c, u in indexes)
+    if sorted(exp_idx) != got_idx: bad('indexes', None, got_idx, sorted(exp_idx))
+    if any(u for n, t, c, u in indexes): bad('unexpected CREATE UNIQUE INDEX', None, indexes, None)
+    got_fk = sorted((c, n, tuple(cc), p, tuple(pc)) for c, n, cc, p, pc in fks)
+    if sorted(exp_fk) != got_fk: bad('foreign keys', None, got_fk, sorted(exp_fk))
+    ctx.count('ddl-structure-checked:' + dialect)
+
+def ddl_oracle(ctx, spec, src, dialect, res, decls, model_ok=None):
     """other dialects: the DDL text Pony would execute"""
     db = res['db']; real = res['outcome']['ok']
     inp = {'source': src, 'dialect': dialect}
@@ -833,6 +918,7 @@ def ddl_oracle(ctx, spec, src, dialect, res, decls):
         ctx.violation('generate_create_script raised %s on an accepted mapping' % exc_cls(e), inp, observed=str(e)[:200], expected='DDL text', key=None)
         return
     ctx.count('ddl:' + dialect)
+    if dialect != 'sqlite': ddl_structure_oracle(ctx, dialect, script, model_schema_json(model_ok) if model_ok is not None else real, inp)
     explicit = explicit_names(decls)
     m = MAXLEN[dialect]
     check_schema_property(ctx, dialect, real, explicit, inp, 'generate_mapping')
@@ -1081,7 +1167,7 @@ def diagrams(ctx):
             if res['linked']: declared_tables_oracle(ctx, dialect, src, res)
             one_to_one_oracle(ctx, dialect, src, res)
             if dialect == 'sqlite': sqlite_oracle(ctx, spec, src, res, model_ok)
-            else: ddl_oracle(ctx, spec, src, dialect, res, res['decls'])
+            else: ddl_oracle(ctx, spec, src, dialect, res, res['decls'], model_ok)
         else:
             ctx.count('rejected-at-generate:' + out['error'])
         try: res['db'].disconnect()
